@@ -58,6 +58,7 @@ SocketPrivate::SocketPrivate(Socket *httpSocket, QTcpSocket *tcpSocket)
       q(httpSocket),
       socket(tcpSocket),
       readState(ReadHeaders),
+      requestMethod(static_cast<Socket::Method>(0)),
       requestDataRead(0),
       requestDataTotal(-1),
       writeState(WriteNone),
